@@ -45,8 +45,7 @@ func runHistory(t *testing.T, hist []sym, tv2 bool, checkFrom int, verbose bool,
 		}
 		defer conn.Close()
 		h := &harness{conn: &rawConn{c: conn}, verbose: verbose}
-		m := &model{tv2: tv2}
-		m.prods[1].first, m.prods[2].first = -1, -1
+		m := newModel(tv2)
 		final = m
 		for i, s := range hist {
 			if !m.enabled(s) {
@@ -85,7 +84,9 @@ func lcp(a, b []sym) int {
 
 func newModel(tv2 bool) *model {
 	m := &model{tv2: tv2}
-	m.prods[1].first, m.prods[2].first = -1, -1
+	for k := range m.prods {
+		m.prods[k].first = -1
+	}
 	return m
 }
 
@@ -106,7 +107,12 @@ func enumerate(m *model, hist []sym, depth int, mask uint32, leaf func(h []sym))
 	}
 }
 
-const fullMask = uint32(1)<<nSym - 1
+// fullMask is the main alphabet (everything but the third transactional producer).
+const fullMask = uint32(1)<<sT3 - 1
+
+// trioMask is the alphabet of the three-producer pass: three concurrently open
+// transactions, so that ending one leaves a minimum over two others.
+const trioMask = uint32(1)<<sP | 1<<sT1 | 1<<sT2 | 1<<sT3 | 1<<sC1 | 1<<sA1 | 1<<sC2 | 1<<sA2 | 1<<sC3 | 1<<sA3 | 1<<sX | 1<<sG
 
 // deepMask is the transaction/session-focused sub-alphabet of the deep pass.
 const deepMask = uint32(1)<<sP | 1<<sT1 | 1<<sT2 | 1<<sC1 | 1<<sA1 | 1<<sA2 | 1<<sX | 1<<sD | 1<<sG
@@ -135,14 +141,17 @@ func genUnits(tv2 bool, unitLen int, mask uint32) []unit {
 	return us
 }
 
-func hasTxn(h []sym) int {
+// firstOf returns the index of the first symbol of h that is in mask, or -1.
+func firstOf(h []sym, mask uint32) int {
 	for i, s := range h {
-		if s == sT1 || s == sT2 {
+		if mask&(1<<s) != 0 {
 			return i
 		}
 	}
 	return -1
 }
+
+const txnSyms = uint32(1)<<sT1 | 1<<sT2 | 1<<sT3
 
 type found struct {
 	Hist   string    `json:"history"`
@@ -175,29 +184,38 @@ type job struct {
 	tv2      bool
 	depth    int
 	mask     uint32
-	minDepth int // histories of length <= minDepth were observed by an earlier pass
+	need     uint32 // only histories containing one of these symbols (the others belong to another pass)
+	minDepth int    // histories of length <= minDepth were observed by another pass
 	u        unit
 }
 
-// depths returns the bounds: full alphabet classic / KIP-890 flavour, and the
-// deep pass over the focused sub-alphabet (classic flavour; 0 = off).
-func depths() (classic, tv2, deep int) {
-	classic, tv2, deep = 5, 5, 0
+// depths returns the history-length bounds of the four passes: full alphabet
+// in the classic and in the KIP-890 flavour, the deep pass over the focused
+// sub-alphabet and the three-producer pass (0 = off). The C32_DEPTH* variables
+// are development overrides.
+func depths() (classic, tv2, deep, trio int) {
+	classic, tv2, deep, trio = 5, 5, 0, 5
 	if ev.Thorough() {
-		classic, tv2, deep = 6, 6, 8
+		classic, tv2, deep, trio = 6, 6, 8, 6
 	}
-	return envInt("C32_DEPTH", classic), envInt("C32_DEPTH_TV2", tv2), envInt("C32_DEPTH_DEEP", deep)
+	return envInt("C32_DEPTH", classic), envInt("C32_DEPTH_TV2", tv2), envInt("C32_DEPTH_DEEP", deep), envInt("C32_DEPTH_TRIO", trio)
 }
 
 func allJobs() []job {
-	depth, depthTV2, deep := depths()
+	depth, depthTV2, deep, trio := depths()
 	var jobs []job
 	for _, fl := range []struct {
 		tv2  bool
 		d    int
 		mask uint32
+		need uint32
 		min  int
-	}{{false, depth, fullMask, 0}, {true, depthTV2, fullMask, 0}, {false, deep, deepMask, depth}} {
+	}{
+		{false, depth, fullMask, 0, 0},
+		{true, depthTV2, fullMask, txnSyms, 0}, // without a transactional produce both flavours send identical requests
+		{false, trio, trioMask, 1 << sT3, 0},
+		{false, deep, deepMask, 0, depth},
+	} {
 		if fl.d <= fl.min {
 			continue
 		}
@@ -208,7 +226,7 @@ func allJobs() []job {
 			ul = 4
 		}
 		for _, u := range genUnits(fl.tv2, ul, fl.mask) {
-			jobs = append(jobs, job{fl.tv2, fl.d, fl.mask, fl.min, u})
+			jobs = append(jobs, job{fl.tv2, fl.d, fl.mask, fl.need, fl.min, u})
 		}
 	}
 	return jobs
@@ -246,10 +264,10 @@ func runJobs(t *testing.T, jobs []job, idx, stride int, deadline time.Time, stat
 			} else {
 				checkFrom = lcp(prev, h)
 			}
-			if j.tv2 {
-				ft := hasTxn(h)
+			if j.need != 0 {
+				ft := firstOf(h, j.need)
 				if ft < 0 {
-					return // identical to the classic flavour
+					return // covered by another pass
 				}
 				if ft > checkFrom {
 					checkFrom = ft
@@ -343,7 +361,7 @@ func TestVerifC32(t *testing.T) {
 		os.Exit(code)
 	}
 	r := ev.New("C32", "model_checking")
-	depth, depthTV2, deep := depths()
+	depth, depthTV2, deep, trio := depths()
 	deadline := ev.Deadline(8*time.Minute, 60*time.Minute)
 
 	r.Rule("every history of exactly d steps (all shorter histories are its prefixes and are observed once each) over the alphabet " +
@@ -353,6 +371,8 @@ func TestVerifC32(t *testing.T) {
 		"(R,O after an I; C/A/X with an open transaction; D while logStart<HWM); batches carry 1 or 2 records by step parity; each history runs on a fresh 1-broker kfake " +
 		"cluster (1 topic, 2 partitions) in its own synctest bubble, driven by hand-framed kmsg requests on one connection. Two protocol flavours: classic " +
 		"(AddPartitionsToTxn + Produce v11 + EndTxn v4) and KIP-890 (Produce v12 implicit add + EndTxn v5 epoch bump; only histories containing T1/T2). " +
+		"Extra passes (classic flavour): a three-producer pass over {P,T1,T2,T3,C1,A1,C2,A2,C3,A3,X,G} (third producer, timeout 14s; histories containing T3) and, in the thorough tier, " +
+		"a deeper pass over the sub-alphabet {P,T1,T2,C1,A1,A2,X,D,G}. " +
 		"distinct_nontrivial = distinct reference-model states reached and validated against kfake")
 	r.Assume("kfake is deterministic for a given request sequence on one connection (each history prefix is observed in one execution only)",
 		"the reference model (lists of batches, transaction outcomes, log start, per-session last-seen triples) is the specification; LSO with a log start beyond an open transaction's first offset follows the statement literally (first offset of the open transaction)",
@@ -447,9 +467,14 @@ func TestVerifC32(t *testing.T) {
 	r.Traces(total.Leaves)
 	r.Set("depth_classic", depth)
 	r.Set("depth_kip890", depthTV2)
+	r.Set("depth_three_producer_pass", trio)
+	r.Set("three_producer_pass_alphabet", maskNames(trioMask))
 	r.Set("depth_deep_pass", deep)
 	r.Set("deep_pass_alphabet", maskNames(deepMask))
 	bound := fmt.Sprintf("all histories of length <= %d (classic flavour), <= %d (KIP-890 flavour, histories with a transactional produce)", depth, depthTV2)
+	if trio > 0 {
+		bound += fmt.Sprintf("; all histories of length <= %d over %v containing T3 (classic flavour)", trio, maskNames(trioMask))
+	}
 	if deep > depth {
 		bound += fmt.Sprintf("; all histories of length <= %d over the sub-alphabet %v (classic flavour)", deep, maskNames(deepMask))
 	}
@@ -465,7 +490,7 @@ func TestVerifC32(t *testing.T) {
 	r.Set("read_committed_fetches_hiding_aborted_data", total.Cov.RcAbortedHidden)
 	r.Set("violating_histories", total.ViolHist)
 	r.Set("worker_processes", workers)
-	r.Set("alphabet", symName[:])
+	r.Set("alphabet", maskNames(fullMask))
 	if total.TimedOut {
 		r.NotExhaustive("soft deadline reached before all histories were executed")
 	}
